@@ -16,6 +16,7 @@ fn main() {
         "rt" => sv::rt::main(&args[2..]),
         "loader" => sv::loader::main(&args[2..]),
         "native" => sv::native::main(&args[2..]),
+        "stack" => sv::stack::main(&args[2..]),
         _ => {
             eprintln!("unknown family {fam}");
             std::process::exit(2);
